@@ -103,7 +103,18 @@ fn decorate(e: Envelope, src: &mut Src, ctx: &mut Ctx) -> Envelope {
         ctx.class(&format!("decor:{}", form_name));
         ctx.class(&format!("decor-pred:{}", pv));
         match form {
-            1 => a = a.add_salt(),
+            1 => {
+                a = a.add_salt();
+                // one salted assertion in three is decorated a second time on the OUTSIDE: a node whose subject
+                // is the salted assertion node (the shape uncompress_subject / decrypt_subject / the decoder
+                // produce for an assertion annotated while it was obscured). Decided by the salt, no draw.
+                if a.digest().data()[0] % 3 == 0 {
+                    if let Ok(n) = a.compress().and_then(|c| c.add_assertion(known_values::NOTE, "annotated while compressed").uncompress_subject()) {
+                        ctx.class("decor:twice-decorated(node-in-node)");
+                        a = n;
+                    }
+                }
+            }
             2 => a = a.elide(),
             3 => a = a.elide_removing_target_with_action(&a, &ObscureAction::Encrypt(case_key())),
             4 => a = a.compress().unwrap_or(a),
@@ -122,7 +133,21 @@ fn decorate(e: Envelope, src: &mut Src, ctx: &mut Ctx) -> Envelope {
             }
             _ => {}
         }
-        e = e.add_assertion_envelope(a).unwrap_or(e);
+        // if the add API refuses the element, the same envelope is obtained through the decoder (which has its
+        // own validity rule): operations must cope with whatever either route lets in
+        e = match e.add_assertion_envelope(a.clone()) {
+            Ok(x) => x,
+            Err(_) => match (bridge::read_out(&e), bridge::read_out(&a)) {
+                (Ok(em), Ok(am)) => match bridge::build_b(&em.add(am)) {
+                    Ok(x) => {
+                        ctx.class("decor:refused-by-add-accepted-by-decoder");
+                        x
+                    }
+                    Err(_) => e,
+                },
+                _ => e,
+            },
+        };
     }
     e
 }
